@@ -168,7 +168,8 @@ impl VmStateIterator {
             memory: self.chiplets.get_mem_state_at(ctx, self.clk),
         });
 
-        self.clk -= 1;
+        // stepping back from the first state (clock 0) stays at clock 0
+        self.clk = self.clk.saturating_sub(1);
 
         result
     }
